@@ -63,6 +63,32 @@ def wchoice(rng, items, weights):
     return items[-1]
 
 
+# beat units of metronome marks and their length in quarters ("q." = dotted quarter)
+TEMPO_UNITS = ("q", "q", "q", "h", "e", "q.", "h.", "e.")
+TEMPO_UNIT_QUARTERS = {"q": F(1), "h": F(2), "e": F(1, 2), "q.": F(3, 2), "h.": F(3), "e.": F(3, 4)}
+
+
+def tempo_mpq(bpm, unit):
+    """microseconds per quarter of a metronome mark of `bpm` units per minute"""
+    return int(round(F(60_000_000) / (F(bpm) * TEMPO_UNIT_QUARTERS[unit or "q"])))
+
+
+# what a word (or its usual abbreviation) asks for: (kind of direction, unabbreviated word) - from the musical terms
+# themselves, not from partitura's tables
+WORD_MEANING = {
+    "ritenuto": ("DecreasingTempoDirection", "ritenuto"),
+    "riten.": ("DecreasingTempoDirection", "ritenuto"),
+    "ritardando": ("DecreasingTempoDirection", "ritardando"),
+    "rall.": ("DecreasingTempoDirection", "rallentando"),
+    "accel.": ("IncreasingTempoDirection", "accelerando"),
+    "cresc.": ("IncreasingLoudnessDirection", "crescendo"),
+    "dim.": ("DecreasingLoudnessDirection", "diminuendo"),
+    "smorz.": ("DecreasingLoudnessDirection", "smorzando"),
+    "ten.": ("ConstantTempoDirection", "tenuto"),
+    "sost.": ("ConstantLoudnessDirection", "sostenuto"),
+}
+
+
 def midi_pitch(step, alter, octave):
     return 12 * (octave + 1) + STEP_PC[step] + (alter or 0)
 
@@ -540,17 +566,22 @@ def decorate(rng, part, profile):
                 e = rng.choice(later)
                 part["dirs"].append({"kind": "wedge", "text": rng.choice(("crescendo", "diminuendo")), "t": t, "e": e, "staff": st})
             else:
-                part["dirs"].append({"kind": "words", "text": rng.choice(("dolce", "espressivo", "legato", "Allegro", "rit.", "a tempo")), "t": t, "e": None, "staff": st})
+                w = rng.choice(("dolce", "espressivo", "legato", "Allegro", "rit.", "a tempo") + tuple(sorted(WORD_MEANING)))
+                d = {"kind": "words", "text": w, "t": t, "e": None, "staff": st}
+                if w in WORD_MEANING and rng.random() < 0.6:
+                    # built through the class of the public API instead of the direction parser
+                    d["cls"] = WORD_MEANING[w][0]
+                part["dirs"].append(d)
         if rng.random() < 0.3:
             part["tempos"].append({"t": 0, "bpm": rng.choice((60, 72, 96, 120, 144)), "unit": "q"})
     elif profile == "midi":
         # tempo is global in a MIDI file: only the first part carries tempo marks
         if part["id"] == "P1" and rng.random() < 0.6:
-            part["tempos"].append({"t": 0 if rng.random() < 0.7 else rng.choice(onsets), "bpm": rng.choice((60, 72, 96, 120, 144)), "unit": "q"})
+            part["tempos"].append({"t": 0 if rng.random() < 0.7 else rng.choice(onsets), "bpm": rng.choice((60, 72, 96, 120, 144)), "unit": rng.choice(TEMPO_UNITS)})
             if rng.random() < 0.3 and len(ms) > 1:
                 t2 = rng.choice(ms[1:])["s"]
                 if t2 != part["tempos"][0]["t"]:
-                    part["tempos"].append({"t": t2, "bpm": rng.choice((50, 80, 100, 132)), "unit": "q"})
+                    part["tempos"].append({"t": t2, "bpm": rng.choice((50, 80, 100, 132)), "unit": rng.choice(TEMPO_UNITS)})
     # --- repeat structure at measure boundaries
     if profile in ("full", "unfold") and len(ms) >= 2 and (profile == "unfold" or rng.random() < 0.25):
         gen_repeats(rng, part, profile)
